@@ -119,6 +119,9 @@ def c03_cli(ctx, res, entries, limit):
 _SGR = re.compile(rb"\x1b\[[0-9;]*m")
 
 
+_DECOY = b"".join(w.to_bytes(2, "big") for w in [0x3000, 0xE002, 0xF022, 0xF025] + [ord(c) for c in "DECOY"] + [0])
+
+
 def c03_environment(ctx, res, entries):
     """The same programs under other environments (no NO_COLOR, colours forced, a dumb or missing TERM,
     a narrow COLUMNS, another locale, an empty environment) and other spellings of the file's path
@@ -138,6 +141,15 @@ def c03_environment(ctx, res, entries):
         e = entries[ix]
         name = "my prog.v%d.final.asm" % ix
         _write(os.path.join(sub, name), e["source"])
+        if n % 2 == 0:
+            # what an earlier invocation may have left behind: a newer object file of the same name, made
+            # from another program, in the working directory and next to the source. `run x.asm` runs x.asm.
+            for where in (d, sub):
+                with open(os.path.join(where, name[:-4] + ".lc3"), "wb") as f:
+                    f.write(_DECOY)
+                with open(os.path.join(where, name[:-4] + ".obj"), "wb") as f:
+                    f.write(_DECOY)
+            res.cls("l2:run_source_beside_a_newer_object_of_another_program")
         jobs.append((ix, envs[n % len(envs)], os.path.join("dir with blanks", name), d))
         jobs.append((ix, envs[(n + 3) % len(envs)], os.path.join(link, name), d))          # absolute, through the symlink
         jobs.append((ix, {}, "./" + name, sub))
@@ -162,7 +174,7 @@ def c03_environment(ctx, res, entries):
         elif body.rstrip(b" \n") != ref_out.rstrip(b" \n"):
             detail["program_output_seen"] = body.decode("utf-8", "replace")[-400:]
             res.violate("C03/cli/stdout-depends-on-environment", "`lace run %s` prints different program output than the reference machine under environment %s" % (path, env), detail)
-    res.require(["l2:run_under_another_environment_or_path"], "L2")
+    res.require(["l2:run_under_another_environment_or_path", "l2:run_source_beside_a_newer_object_of_another_program"], "L2")
 
 
 def c03_reg_table(ctx, res):
@@ -274,6 +286,11 @@ def c03_objects(ctx, res):
 
 # ------------------------------------------------------------------ C06
 
+_DEST_BEFORE = [("longer_file_existed", b"\xAB\xCD" * 4096), ("absent", None), ("odd_sized_file_existed", b"30 00 f0 25 - notes to self\n" * 3 + b"."),
+                ("absent", None), ("odd_sized_file_existed", bytes.fromhex("3000f025f0")), ("empty_file_existed", b""),
+                ("longer_file_existed", b"\x00" * 131072), ("odd_sized_file_existed", bytes.fromhex("3000e002f022f02500480069000000") + b"\n")]
+
+
 def c06(ctx, res):
     cp = corpus(ctx)
     entries = cp["structured"]
@@ -290,9 +307,11 @@ def c06(ctx, res):
             src = ("r%d.v2.asm", "my prog %d.1.0.asm", ".hidden%d.asm", "r%d.tar.gz.asm")[ix // 5 % 4] % ix
             obj = ("r%d.v2" + ext, "my prog %d.1.0" + ext, ".hidden%d" + ext, "r%d.2024-10.final" + ext)[ix // 5 % 4] % ix
         _write(os.path.join(d, src), e["source"])
-        if ix % 2 == 0:
-            # destination already exists and is longer than the new object file
-            _write(os.path.join(d, obj), b"\xAB\xCD" * 4096)
+        pre = _DEST_BEFORE[ix % len(_DEST_BEFORE)]
+        if pre[1] is not None:
+            # the destination already exists: longer than the new object file, of odd size (an object that
+            # picked up a stray byte, somebody's notes), empty. It is written over all the same.
+            _write(os.path.join(d, obj), pre[1])
         c = lace(ctx, ["compile", src, obj] + feat(e), cwd=d)
         ra = lace(ctx, ["run", src, "--minimal"] + feat(e), stdin=bytes(e["input"]), cwd=d)
         data = None
@@ -306,7 +325,7 @@ def c06(ctx, res):
         res.evaluations += 1
         res.distinct += 1
         res.cls("round_trip")
-        res.cls("dest:" + ("longer_file_existed" if ix % 2 == 0 else "absent"))
+        res.cls("dest:" + _DEST_BEFORE[ix % len(_DEST_BEFORE)][0])
         res.cls("ext:" + obj.rsplit(".", 1)[1])
         if obj.count(".") > 1 or obj.startswith("."):
             res.cls("name_with_several_dots")
@@ -356,6 +375,11 @@ def c06(ctx, res):
                 # images whose last word is xFFFE (the loader's HALT goes to xFFFF): the largest that fit
                 ("ends_at_fffe_from_default_origin", "and r0 r0 #0\nadd r0 r0 #2\nputn\nhalt\n.blkw xCFFB\n"),
                 ("one_word_at_fffe", ".orig xFFFE\n.fill x1\n"), ("empty_at_ffff", ".orig xFFFF\n")]
+    # labels that other tools treat as the entry point, below the first statement: execution starts at the origin
+    entry_names = ["main", "MAIN", "Main", "start", "_start", "START", "entry", "begin", "_main", "reset"]
+    for nm in entry_names:
+        directed.append(("entry_name:" + nm, "and r0 r0 #0\nadd r0 r0 #1\n%s add r0 r0 #1\nputn\nhalt\n" % nm))
+        directed.append(("entry_name_below_data:" + nm, "lea r0 m\nputs\nbr %s\nm .stringz \"A\"\n%s lea r0 n\nputs\nhalt\nn .stringz \"B\"\n" % (nm, nm)))
     for k, (tag, srctext) in enumerate(directed):
         name, obj = "dir%d.asm" % k, "dir%d.lc3" % k
         _write(os.path.join(d, name), srctext)
@@ -365,6 +389,10 @@ def c06(ctx, res):
         # label is defined, the image ends below x10000): these compile, to 2(n+1) bytes
         n_words = {"crlf": 6, "no_final_newline": 6, "across_fe00_string": 38, "across_fe00_to_ffff": 639, "across_fe00_big_blkw": 4 + 0xCE00,
                    "ends_at_fdff": 4, "ends_at_fffe_from_default_origin": 0xCFFF, "one_word_at_fffe": 1, "empty_at_ffff": 0}.get(tag)
+        if tag.startswith("entry_name:"):
+            n_words = 5
+        elif tag.startswith("entry_name_below_data:"):
+            n_words = 10
         size = os.path.getsize(os.path.join(d, obj)) if os.path.exists(os.path.join(d, obj)) else None
         if n_words is not None and (c.rc != 0 or size != 2 * (n_words + 1)):
             res.violate("C06/compile-failed", "`lace compile` of a valid program (%s: %d statement words) exits %s and leaves %s bytes; the object file has 2(n+1) = %d"
@@ -375,7 +403,13 @@ def c06(ctx, res):
             continue
         ra = lace(ctx, ["run", name, "--minimal"], cwd=d)
         ro = lace(ctx, ["run", obj, "--minimal"], cwd=d)
-        res.cls("directed_round_trip:" + tag)
+        res.cls("directed_round_trip:" + tag.split(":")[0])
+        if tag.startswith("entry_name"):
+            want_out = b"2" if tag.startswith("entry_name:") else b"AB"
+            for which, r in (("source", ra), ("object file", ro)):
+                if r.rc != 0 or program_output(r.out)[0].strip() != want_out:
+                    res.violate("C06/object-file-does-not-run-like-the-reference", "running the %s of a program whose label %r stands below its first statement prints %r (exit %s); started at the origin it prints %r"
+                                % (which, tag.split(":")[1], program_output(r.out)[0].strip()[:40], r.rc, want_out), {"kind": tag, "source": srctext, "run": r.brief()})
         if ra.rc != ro.rc or ra.out.replace(name.encode(), b"<file>") != ro.out.replace(obj.encode(), b"<file>"):
             res.violate("C06/round-trip-behaviour", "`lace compile` accepted the source, but running the object file differs from running the source (exit %s vs %s)"
                         % (ro.rc, ra.rc), {"kind": tag, "source": srctext[:300], "compile": c.brief(), "run_source": ra.brief(), "run_object": ro.brief()})
@@ -535,8 +569,8 @@ def c06(ctx, res):
                                 % (behind[ix], r.rc), detail)
     c06_after_failed_compile(ctx, res)
     res.distinct += len(set(files))
-    res.require(["round_trip_after_a_failed_compile", "name_with_several_dots", "round_trip", "dest:longer_file_existed", "dest:absent", "ext:lc3", "ext:obj", "loader:empty", "loader:odd", "loader:fits", "loader:too_long",
-                 "edge:FFFF", "edge:10000", "edge:FFFE", "delivery:fifo:odd", "delivery:fifo:even", "loader:runs_into_implicit_halt", "object_with_long_zero_run", "directed_round_trip:across_fe00_string", "directed_round_trip:crlf"], "L2")
+    res.require(["round_trip_after_a_failed_compile", "name_with_several_dots", "round_trip", "dest:longer_file_existed", "dest:absent", "dest:odd_sized_file_existed", "dest:empty_file_existed", "ext:lc3", "ext:obj", "loader:empty", "loader:odd", "loader:fits", "loader:too_long",
+                 "edge:FFFF", "edge:10000", "edge:FFFE", "delivery:fifo:odd", "delivery:fifo:even", "loader:runs_into_implicit_halt", "object_with_long_zero_run", "directed_round_trip:across_fe00_string", "directed_round_trip:crlf", "directed_round_trip:entry_name", "directed_round_trip:entry_name_below_data"], "L2")
     return res
 
 
@@ -703,6 +737,20 @@ def c07(ctx, res):
             old = time.time() - 3600
             os.utime(os.path.join(d, name), (old, old))
             _write(os.path.join(d, "s%d.lc3" % ix), bytes.fromhex("3000e002f022f0250053005400000000"))
+        if ix % 4 == 3:
+            # earlier invocations that came to nothing, aimed at the same destination: a source that is not there
+            # (yet), one that is not text, a directory, a source with an error. What the three commands say
+            # about *this* text afterwards is the same as without that history.
+            kind = (ix // 4) % 4
+            pre = "s%d.earlier.asm" % ix
+            if kind == 1:
+                _write(os.path.join(d, pre), b"halt\n\xff\xfe\n")
+            elif kind == 2:
+                os.makedirs(os.path.join(d, pre), exist_ok=True)
+            elif kind == 3:
+                _write(os.path.join(d, pre), "add r0 r0 #99\n")
+            lace(ctx, ["compile", pre, "s%d.lc3" % ix], cwd=d)
+            lace(ctx, ["check", pre], cwd=d)
         f = ["-f", "stack"] if stack else []
         if stack == "front":
             g = ["-f", "stack"]
@@ -720,6 +768,8 @@ def c07(ctx, res):
     for ix in range(len(cases)):
         if ix % 9 < len(ENVS) and ENVS[ix % 9]:
             res.cls("environment:" + "+".join(sorted(ENVS[ix % 9])))
+        if ix % 4 == 3:
+            res.cls("after_an_earlier_failed_invocation:" + ("source_absent", "source_not_text", "source_is_a_directory", "source_invalid")[(ix // 4) % 4])
     for ix, chk, cmpl, run in pmap(one, range(len(cases))):
         src, stack, tag = cases[ix]
         res.evaluations += 1
@@ -760,7 +810,8 @@ def c07(ctx, res):
         if ix % 40 == 0:
             res.samples.append({"source": src[:400], "stack_flag": stack, "check": oc, "compile": om, "run_exit": run.rc})
     res.require(["tag:emit_fail", "tag:mixed", "tag:valid", "tag:top_of_memory", "tag:stack_ext_without_flag", "flag:stack", "flag:none",
-                 "both_accept", "both_reject", "emit_fail_minimal_program", "tag:fuzz", "tag:empty_program", "tag:flag_before_subcommand", "tag:not_utf8", "file_name:s", "file_name:none"]
+                 "both_accept", "both_reject", "emit_fail_minimal_program", "tag:fuzz", "tag:empty_program", "tag:flag_before_subcommand", "tag:not_utf8", "file_name:s", "file_name:none",
+                 "after_an_earlier_failed_invocation:source_absent", "after_an_earlier_failed_invocation:source_not_text", "after_an_earlier_failed_invocation:source_is_a_directory"]
                 + ["both_reject:" + r for r in ("undefined_label", "origin_twice", "duplicate_or_bad_label", "syntax", "directive_operand",
                                                 "lexical", "operand_range", "stack_extension_off")] + ["emit_fail_form:" + f for f in ("BR", "LD", "LDI", "LEA", "ST", "STI", "JSR", "CALL")], "L2")
     # ---- watch: every re-check equals a fresh check
@@ -1523,6 +1574,74 @@ def c08_inject(ctx, res, entries, d):
                 res.cls("injected:handled")
 
 
+# ------------------------------------------------------------------ C19 (L2: one text, one result - whatever the files around it look like)
+
+def c19_cli(ctx, res):
+    """`lace compile` of a text gives the image of that text, whatever was compiled before to the same
+    destination and whatever the file dates say: sources older than the destination, two sources taking
+    turns on one destination (named, and the default ./<stem>.lc3 of two files of one name in two
+    folders), a failing text after a good one. The expected image is the reference assembler's."""
+    cp = corpus(ctx)
+    entries = [e for e in cp["structured"] if e.get("image")][:60 if not ctx.thorough() else 400]
+    d = _dir(ctx, "c19cli")
+    old = time.time() - 7200
+    bad_texts = ["add r0 r0 #99\n", "ld r0 nowhere\nhalt\n", "dup halt\ndup halt\n", ".stringz \"open\n"]
+
+    def one(k):
+        a, b = entries[k], entries[(k * 7 + 3) % len(entries)]
+        sub = os.path.join(d, "h%d" % k)
+        os.makedirs(os.path.join(sub, "one"), exist_ok=True)
+        os.makedirs(os.path.join(sub, "two"), exist_ok=True)
+        shape = k % 4
+        steps = []
+        if shape in (0, 1):
+            names = ("a.asm", "b.asm")
+            dest = ["out.lc3"]
+        else:
+            names = (os.path.join("one", "prog.asm"), os.path.join("two", "prog.asm"))
+            dest = []
+        for n, e in zip(names, (a, b)):
+            _write(os.path.join(sub, n), e["source"])
+            os.utime(os.path.join(sub, n), (old, old))      # the sources are older than anything compiled today
+        order = [(names[0], a), (names[1], b), (names[0], a)]
+        if shape in (1, 3):
+            bad = os.path.join(os.path.dirname(names[0]), "prog_bad.asm") if shape == 3 else "bad.asm"
+            if shape == 3:
+                # the failing text takes the place of two/prog.asm, with an old date
+                bad = names[1]
+            order.insert(2, (bad, None))
+        out = os.path.join(sub, dest[0] if dest else "prog.lc3")
+        for n, e in order:
+            if e is None:
+                _write(os.path.join(sub, n), bad_texts[k % len(bad_texts)])
+                os.utime(os.path.join(sub, n), (old, old))
+            before = open(out, "rb").read() if os.path.exists(out) else None
+            r = lace(ctx, ["compile", n] + dest + (feat(e) if e else []), cwd=sub)
+            after = open(out, "rb").read() if os.path.exists(out) else None
+            steps.append((n, e, r, before, after))
+        return k, shape, steps
+    for k, shape, steps in pmap(one, range(len(entries))):
+        for n, e, r, before, after in steps:
+            res.evaluations += 1
+            res.cls("l2:compile_history:" + ("named_destination", "named_destination_with_a_failing_text", "default_destination_of_two_folders", "default_destination_with_a_failing_text")[shape])
+            detail = dict(r.brief(), step=n, history=[s[0] for s in steps], source=(e["source"] if e else bad_texts[k % len(bad_texts)])[:600])
+            if r.rc is None or r.crashed:
+                res.violate("C19/cli/crash", "`lace compile` crashed or hung (exit %s)" % r.rc, detail)
+                break
+            if e is None:
+                if r.rc == 0:
+                    res.violate("C19/cli/failing-text-accepted-after-a-good-one", "`lace compile %s` of a text with an error exits 0 when a destination written by an earlier compile exists; on its own it is refused" % n, detail)
+                    break
+                continue
+            want = b"".join(int(w).to_bytes(2, "big") for w in e["image"])
+            if r.rc != 0 or after != want:
+                detail["destination_is_still_the_previous_image"] = (after == before and before is not None)
+                res.violate("C19/cli/result-depends-on-earlier-compile", "`lace compile %s` (exit %s) leaves %s at the destination; the image of this text is %d bytes - the same whatever was compiled there before"
+                            % (n, r.rc, "the image of the text compiled before" if after == before and before is not None else ("%d other bytes" % len(after) if after is not None else "nothing"), len(want)), detail)
+                break
+    res.require(["l2:compile_history:named_destination", "l2:compile_history:default_destination_of_two_folders", "l2:compile_history:named_destination_with_a_failing_text"], "L2")
+
+
 # ------------------------------------------------------------------ C14 transport
 
 def c14_transport(ctx, res):
@@ -1550,6 +1669,9 @@ def c14_transport(ctx, res):
              ["", " ", ";", "echo ;", "echo x", "exit"],
              # a carriage return in the middle of a command is part of that command (a bad one), not a separator
              ["move r0 5\rmove r0 6", "registers", "echo a\rb", "goto x3001\rregisters", "print r0", "exit"],
+             # commands whose argument is text of another language (an instruction for eval, free text for echo): the
+             # separator ends them like any other command
+             ["eval add r4 r4 #1", "registers", "e add r4 r4 #2", "print r4", "evaluate not r4 r4", "registers", "EVAL and r4 r4 #0", "echo a # b", "print r4", "exit"],
              # the last command is a single character with nothing behind it
              ["move r0 5", "step", "r"], ["echo a", "move r1 7", "print r1", "c"], ["step", "echo z", "x"],
              # two-byte characters from every sixteenth of their range (lead bytes xC2..xDF: Latin, Greek, Cyrillic, Hebrew, Arabic, N'Ko)
@@ -1573,7 +1695,7 @@ def c14_transport(ctx, res):
                     variants.append((cut, sa, sb))
         if not ctx.thorough():
             rnd.shuffle(variants)
-            variants = variants[:8] + [(len(cmds), ";", ";"), (0, "\n", "\n")]
+            variants = variants[:8] + [(len(cmds), ";", ";"), (0, "\n", "\n"), (0, ";", ";"), (1, ";", ";")]
         # both separators mixed inside the --command argument and inside stdin
         variants.append((len(cmds) // 2, "mix", "mix"))
         variants.append((len(cmds), "mix", "mix"))
@@ -1718,7 +1840,28 @@ def c10_cli(ctx, res):
             elif not got_pc or got_pc[-1] != pc or got_r1[-1] != r1:
                 res.violate("C10/cli/wrong-pause", "script %r delivered as %s leaves PC %s R1 %s at its final `registers`; the reference machine is at PC %s with R1 %s"
                             % (cmds, via, got_pc[-1:] or None, got_r1[-1:] or None, pc, r1), detail)
-    res.require(["l2:stepping_script_via:arg", "l2:stepping_script_via:stdin", "l2:stepping_script_via:split"], "L2")
+    # a program that reads input while it is stepped, commands and program input on the one standard input: each
+    # takes the bytes that are its own, in order (the command reader up to its line end, GETC one byte)
+    _write(os.path.join(d, "reads.asm"), "getc\nadd r1 r0 #0\ngetc\nadd r2 r0 #0\nhalt\n")
+    feeds = [([], b"step\nAstep\nstep\nBregisters\n", ("x3003", "x0042", "x0041", "x0000")),
+             ([], b"step into 4\nABregisters\n", ("x3004", "x0042", "x0041", "x0042")),
+             (["--command", "step"], b"Astep\nstep\nBregisters", ("x3003", "x0042", "x0041", "x0000")),
+             ([], b"break add x3003\ncontinue\nABregisters\n", ("x3003", "x0042", "x0041", "x0000")),
+             ([], b"step\nQstep;step\nZregisters\n", ("x3003", "x005a", "x0051", "x0000")),
+             (["--command", "step into 3;registers"], b"mn", ("x3003", "x006e", "x006d", "x0000"))]
+    for extra, stdin, (pc, r0, r1, r2) in feeds:
+        r = lace(ctx, ["debug", "reads.asm", "--minimal"] + extra, stdin=stdin, cwd=d, timeout=30)
+        res.evaluations += 1
+        res.cls("l2:stepping_over_input_traps_fed_on_the_command_stream")
+        text = r.err.decode("utf-8", "replace")
+        got = tuple((re.findall(r"^%s (x[0-9a-f]{4})" % k, text, re.M) or [None])[-1] for k in ("PC", "R0", "R1", "R2"))
+        detail = dict(r.brief(), arguments=extra, standard_input=stdin.decode(), expected={"PC": pc, "R0": r0, "R1": r1, "R2": r2})
+        if r.rc is None or r.crashed:
+            res.violate("C10/cli/crash", "`lace debug` crashed or hung (exit %s)" % r.rc, detail)
+        elif got != (pc, r0, r1, r2):
+            res.violate("C10/cli/wrong-pause", "stepping a program that reads its input from the stream the commands come from (%r): PC, R0, R1, R2 are %s at the final `registers`; the reference machine has %s"
+                        % (stdin.decode(), got, (pc, r0, r1, r2)), detail)
+    res.require(["l2:stepping_script_via:arg", "l2:stepping_script_via:stdin", "l2:stepping_script_via:split", "l2:stepping_over_input_traps_fed_on_the_command_stream"], "L2")
 
 
 # ------------------------------------------------------------------ C15 (L2: eval through both readers)
@@ -1919,10 +2062,148 @@ def c16_cli(ctx, res):
         else:
             res.cls("l2:session_terminated")
     c16_input_traps(ctx, res, d)
+    c16_terminal_streams(ctx, res)
     res.require(["l2:session_through_real_reader:stdin", "l2:session_through_real_reader:arg", "l2:script_without_final_newline",
                  "l2:session_terminated", "l2:input_trap_under_debugger:arg", "l2:input_trap_under_debugger:stdin", "l2:program:halts", "l2:program:runs_off", "l2:program:jumps_low", "l2:program:to_ffff",
                  "l2:program:prints_esc", "l2:script_not_utf8", "l2:program:puts_at_ffff", "l2:program:fresh_cc", "l2:program:no_labels", "l2:program:eval_call", "l2:session_through_real_reader:stdin-is-a-directory",
                  "l2:session_through_real_reader:arg-decorated", "l2:session_through_real_reader:stdin-decorated"], "L2")
+
+
+def _asleep(pid):
+    """(state letter, number of the system call the process sleeps in, CPU ticks so far) or None when it is gone."""
+    try:
+        with open("/proc/%d/stat" % pid) as f:
+            state = f.read().rsplit(") ", 1)[1].split()[0]
+        with open("/proc/%d/syscall" % pid) as f:
+            sc = f.read().split()
+    except (OSError, IndexError):
+        return None
+    return state, (sc[0] if sc else "?"), common._cpu_ticks(pid)
+
+
+def _watch_until_over_or_asleep(p, drain, extra_condition, samples=10, budget=120):
+    """Wait for the process to end. Returns (exit status, None), or (None, description) once it has been
+    asleep in one system call with its CPU time standing still for `samples` consecutive half seconds
+    while `extra_condition()` holds (a reason why no event can come that would wake it), or (None, None)
+    when the wall-clock watchdog fires first (undecided)."""
+    still, last = 0, None
+    deadline = time.time() + budget
+    while time.time() < deadline:
+        drain(0.5)
+        rc = p.poll()
+        if rc is not None:
+            return rc, None
+        st = _asleep(p.pid)
+        if st and st[0] == "S" and last is not None and st == last and extra_condition():
+            still += 1
+            if still >= samples:
+                return None, "asleep in system call %s, CPU time standing at %s ticks for %d consecutive half seconds" % (st[1], st[2], samples)
+        else:
+            still = 0
+        last = st
+    return None, None
+
+
+def c16_terminal_streams(ctx, res):
+    """Sessions with a terminal somewhere around them. (1) The script comes on redirected standard input
+    (`lace debug p.asm < cmds.txt`) while the messages go to a terminal: the script is read, the session
+    ends with it. (2) A finite --command script given on a terminal while another session of the same
+    user sits idle at its prompt: it ends all the same. Nobody types on these terminals, so a process
+    asleep with its CPU time standing still and its script unread (1) or asleep in flock() (2) stays so."""
+    import pty
+    import fcntl
+    import termios
+    import select
+    d = _dir(ctx, "c16_tty")
+    cache = os.path.join(d, "cache")
+    os.makedirs(cache, exist_ok=True)
+    _write(os.path.join(d, "p.asm"), ".orig x3000\nand r1, r1, #0\nadd r1, r1, #3\nloop add r1, r1, #-1\nbrp loop\nhalt\n")
+    _write(os.path.join(d, "cmds.txt"), "stepinto 2\nregisters\ncontinue\necho done\n")
+    env = dict(common.ENV, XDG_CACHE_HOME=cache, TERM="xterm")
+    for variant in ("stdout_and_stderr_on_terminal", "stderr_on_terminal", "stdout_on_terminal"):
+        master, slave = pty.openpty()
+
+        def pre():
+            os.setsid()
+            fcntl.ioctl(slave, termios.TIOCSCTTY, 0)       # the terminal is the session's controlling terminal, as in a shell
+        script = open(os.path.join(d, "cmds.txt"), "rb")
+        sink = open(os.path.join(d, "sink.%s" % variant), "wb")
+        p = subprocess.Popen([common.cli_bin(ctx), "debug", "p.asm", "--minimal"], cwd=d, env=env, stdin=script,
+                             stdout=slave if variant != "stderr_on_terminal" else sink, stderr=slave if variant != "stdout_on_terminal" else sink, preexec_fn=pre)
+        os.close(slave)
+        shown = bytearray()
+
+        def drain(wait):
+            end = time.time() + wait
+            while True:
+                left = end - time.time()
+                if left <= 0:
+                    return
+                r, _, _ = select.select([master], [], [], left)
+                if not r:
+                    return
+                try:
+                    data = os.read(master, 65536)
+                except OSError:
+                    time.sleep(min(left, 0.1))
+                    return
+                if not data:
+                    return
+                shown.extend(data)
+
+        def unread():
+            try:
+                with open("/proc/%d/fdinfo/0" % p.pid) as f:
+                    return f.read().split("pos:")[1].split()[0] == "0"
+            except (OSError, IndexError):
+                return False
+        rc, why = _watch_until_over_or_asleep(p, drain, unread)
+        if rc is None:
+            p.kill()
+            p.wait()
+        drain(0.2)
+        os.close(master)
+        script.close()
+        sink.close()
+        res.evaluations += 1
+        res.cls("l2:script_on_redirected_stdin_with:" + variant)
+        seen = bytes(shown) + open(os.path.join(d, "sink.%s" % variant), "rb").read()
+        detail = {"command": "lace debug p.asm --minimal < cmds.txt", "streams": variant, "exit": rc, "terminal_tail": bytes(shown[-300:]).decode("utf-8", "replace")}
+        if why:
+            res.violate("C16/cli/blocked-for-good", "`lace debug p.asm < cmds.txt` with %s never ends: %s, the script on its standard input unread (it waits for keys from a terminal nobody types on)" % (variant.replace("_", " "), why), detail)
+        elif rc is None:
+            k = "session with messages on a terminal exceeded the 120 s wall-clock watchdog (undecided)"
+            res.inconclusive[k] = res.inconclusive.get(k, 0) + 1
+        elif rc == 101 or rc < 0:
+            res.violate("C16/cli/crash", "`lace debug` crashed (exit %s)" % rc, detail)
+        elif b"done" not in seen:
+            res.violate("C16/cli/script-not-read", "`lace debug p.asm < cmds.txt` with %s ended (exit %s) without carrying out the script (its `echo done` never shows)" % (variant.replace("_", " "), rc), detail)
+        else:
+            res.cls("l2:session_terminated")
+    # (2) an idle session and a scripted one, one user, one cache directory
+    a = _Pty(ctx, d, cache)
+    b = _Pty(ctx, d, cache, extra=["--minimal", "--command", "registers;exit"])
+    rc, why = _watch_until_over_or_asleep(b.p, b.drain, lambda: (_asleep(b.p.pid) or ("", "", 0))[1] == "73")
+    if rc is None:
+        b.p.kill()
+        b.p.wait()
+    os.close(b.master)
+    a.type(["exit", "<Enter>"])
+    ra = a.finish(20)
+    res.evaluations += 1
+    res.cls("l2:scripted_session_beside_an_idle_one")
+    detail = {"command": "lace debug p.asm --minimal --command 'registers;exit' (on a terminal, another session idle at its prompt)", "exit": rc, "idle_session_exit": ra,
+              "terminal_tail": bytes(b.shown[-300:]).decode("utf-8", "replace")}
+    if why:
+        res.violate("C16/cli/blocked-for-good", "a session over a finite --command script never ends while another session is open: %s (flock), waiting for a lock the idle session holds" % why, detail)
+    elif rc is None:
+        k = "scripted session beside an idle one exceeded the 120 s wall-clock watchdog (undecided)"
+        res.inconclusive[k] = res.inconclusive.get(k, 0) + 1
+    elif rc == 101 or rc < 0:
+        res.violate("C16/cli/crash", "`lace debug` crashed (exit %s)" % rc, detail)
+    else:
+        res.cls("l2:session_terminated")
+    res.require(["l2:script_on_redirected_stdin_with:stdout_and_stderr_on_terminal", "l2:script_on_redirected_stdin_with:stderr_on_terminal", "l2:scripted_session_beside_an_idle_one"], "L2")
 
 
 def _blocked_on_itself(pid):
@@ -2465,6 +2746,110 @@ def _pty_session(ctx, d, cache, keys, streams):
         if f:
             f.close()
     return rc, bytes(shown)
+
+
+class _Pty:
+    """One `lace debug p.asm` on a pseudo-terminal of its own, typed to in steps (for sessions that overlap)."""
+
+    def __init__(self, ctx, d, cache, extra=()):
+        import pty
+        self.master, slave = pty.openpty()
+        env = dict(common.ENV, XDG_CACHE_HOME=cache, TERM="xterm")
+        self.p = subprocess.Popen([common.cli_bin(ctx), "debug", "p.asm"] + list(extra), cwd=d, env=env, stdin=slave, stdout=slave, stderr=slave, start_new_session=True)
+        os.close(slave)
+        self.shown = bytearray()
+        self.drain(1.5)
+
+    def drain(self, wait):
+        import select
+        end = time.time() + wait
+        while True:
+            left = end - time.time()
+            if left <= 0:
+                return
+            r, _, _ = select.select([self.master], [], [], left)
+            if not r:
+                return
+            try:
+                data = os.read(self.master, 65536)
+            except OSError:
+                return
+            if not data:
+                return
+            self.shown.extend(data)
+
+    def type(self, keys):
+        for k in keys:
+            seq = _KEYS.get(k)
+            for chunk in ([seq] if seq is not None else [c.encode("utf-8") for c in k]):
+                try:
+                    os.write(self.master, chunk)
+                except OSError:
+                    return
+                self.drain(0.08)
+        self.drain(0.4)
+
+    def finish(self, wait=60):
+        deadline = time.time() + wait
+        while self.p.poll() is None and time.time() < deadline:
+            self.drain(0.3)
+        rc = self.p.poll()
+        if rc is None:
+            self.p.kill()
+            self.p.wait()
+        os.close(self.master)
+        return rc
+
+
+def c20_shared_history(ctx, res):
+    """Two sessions open at the same time on one history file (two terminals, one user), then a third that
+    recalls what they submitted: the history a session starts from is every line submitted before it,
+    in the order of submission, and Up/Enter submit those lines."""
+    base = _dir(ctx, "c20_shared")
+    for variant in ("empty_history", "history_from_an_earlier_session"):
+        d = os.path.join(base, variant)
+        cache = os.path.join(d, "cache")
+        os.makedirs(cache, exist_ok=True)
+        _write(os.path.join(d, "p.asm"), "add r0 r0 #1\nadd r0 r0 #1\nhalt\n")
+        want = []
+        if variant != "empty_history":
+            p0 = _Pty(ctx, d, cache)
+            p0.type(["print r0", "<Enter>", "exit", "<Enter>"])
+            p0.finish()
+            want += ["print r0", "exit"]
+        a = _Pty(ctx, d, cache)
+        b = _Pty(ctx, d, cache)
+        a.type(["registers", "<Enter>"])
+        b.type(["help", "<Enter>"])
+        a.type(["echo from a", "<Enter>"])
+        b.type(["quit", "<Enter>"])
+        rb = b.finish()
+        a.type(["exit", "<Enter>"])
+        ra = a.finish()
+        want += ["registers", "help", "echo from a", "quit", "exit"]
+        hist = os.path.join(cache, "lace-debugger-history")
+        got = open(hist, encoding="utf-8", errors="replace").read().splitlines() if os.path.exists(hist) else None
+        # a third session: <Up> n times from the end of the history, Enter submits the n-th last line
+        n_up = 5
+        c = _Pty(ctx, d, cache)
+        c.type(["<Up>"] * n_up + ["<Enter>", "quit", "<Enter>"])
+        rc = c.finish()
+        got2 = open(hist, encoding="utf-8", errors="replace").read().splitlines() if os.path.exists(hist) else None
+        res.evaluations += 1
+        res.cls("l2:two_sessions_one_history_file:" + variant)
+        detail = {"exit": [ra, rb, rc], "history_file_after_the_two_sessions": got, "expected": want, "history_file_after_the_third": got2,
+                  "third_session_terminal_tail": bytes(c.shown[-300:]).decode("utf-8", "replace")}
+        if None in (ra, rb, rc):
+            k = "session on a pseudo-terminal did not end within 60 s (undecided)"
+            res.inconclusive[k] = res.inconclusive.get(k, 0) + 1
+        elif 101 in (ra, rb, rc) or min(ra, rb, rc) < 0:
+            res.violate("C20/pty/crash", "`lace debug` on a terminal crashed (exit %s)" % [ra, rb, rc], detail)
+        elif got2 is None or len(got2) < 2 or got2[-1] != "quit" or got2[-2] != want[-n_up]:
+            # (the file is the channel through which the submitted line is seen, as in the sessions above;
+            # its layout is lace's own business)
+            res.violate("C20/pty/submitted-lines", "a session started after the lines %r had been submitted (by two sessions open at the same time) submits %r after %d x <Up>, <Enter>; a plain editor starting from that history holds %r"
+                        % (want, (got2 or [])[-2:-1], n_up, want[-n_up]), detail)
+    res.require(["l2:two_sessions_one_history_file:empty_history", "l2:two_sessions_one_history_file:history_from_an_earlier_session"], "L2")
 
 
 def c20_pty(ctx, res):
